@@ -2,6 +2,7 @@ package gem
 
 import (
 	"fmt"
+	"strconv"
 	"strings"
 )
 
@@ -140,57 +141,52 @@ func satisfiesConstraint(version *Version, c *constraint, ecosystem *Ecosystem) 
 }
 
 // satisfiesPessimistic implements the Ruby Gem pessimistic constraint (~>)
+// like Gem::Requirement: v >= r and the release of v below r.bump
 func satisfiesPessimistic(version, constraint *Version) bool {
-	// ~> 1.2.3 means >= 1.2.3 and < 1.3.0
-	// ~> 1.2 means >= 1.2.0 and < 2.0.0
+	// ~> 1.2.3 means >= 1.2.3 and < 1.3
+	// ~> 1.2 means >= 1.2 and < 2
+	// ~> 1.2.3.rc1 means >= 1.2.3.rc1 and < 1.2.4
 
 	// Must be >= constraint version
 	if version.Compare(constraint) < 0 {
 		return false
 	}
 
-	// Get the numeric parts of both version and constraint for comparison
-	versionNumeric, _ := version.splitNumericAndPrerelease()
-	constraintNumeric, constraintPrerelease := constraint.splitNumericAndPrerelease()
+	// The release of the version (its segments before the first letter)
+	// must stay below the bumped constraint
+	release, _ := version.splitReleaseAndRest()
+	return compareSegmentArrays(release, pessimisticUpperBound(constraint)) < 0
+}
 
-	// For range calculations, we need to understand the original precision
-	// Count numeric segments from the original constraint string
-	constraintStr := constraint.String()
-	mainPart := constraintStr
-	if dashIndex := strings.Index(constraintStr, "-"); dashIndex != -1 {
-		mainPart = constraintStr[:dashIndex]
-	}
-	originalSegments := strings.Split(mainPart, ".")
-	numericSegments := len(originalSegments)
+// pessimisticUpperBound returns the constraint version "bumped": the numeric
+// segments as written before the first letter, without the last one (if there
+// is more than one and the constraint is not a prerelease), and the new last
+// one incremented. 1.2.3 -> 1.3, 1.2 -> 2, 1.0.0.rc1 -> 1.0.1
+func pessimisticUpperBound(constraint *Version) []segment {
+	text := strings.TrimPrefix(strings.TrimSpace(constraint.String()), "v")
+	text = strings.ReplaceAll(text, "-", ".pre.")
+	text = strings.ReplaceAll(text, "+", ".")
 
-	// For pessimistic constraints, all segments except the last must match exactly
-	numSegmentsToCheck := numericSegments - 1
-
-	// Special case: single segment constraint (~> 1)
-	if numericSegments == 1 {
-		numSegmentsToCheck = 1
-	}
-
-	// Special case: constraint has prerelease (~> 1.0.0-alpha)
-	// When constraint has prerelease, all numeric segments must match exactly
-	if len(constraintPrerelease) > 0 {
-		numSegmentsToCheck = numericSegments
-	}
-
-	// Check that the required segments match exactly
-	for i := 0; i < numSegmentsToCheck; i++ {
-		var vSeg, cSeg int
-		if i < len(versionNumeric) {
-			vSeg = versionNumeric[i].numValue
+	var numeric []segment
+	isPrerelease := false
+	for _, part := range segmentPattern.FindAllString(text, -1) {
+		seg := createSegment(part)
+		if !seg.isNumeric {
+			isPrerelease = true
+			break
 		}
-		if i < len(constraintNumeric) {
-			cSeg = constraintNumeric[i].numValue
-		}
-
-		if vSeg != cSeg {
-			return false
-		}
+		numeric = append(numeric, seg)
+	}
+	// A prerelease constraint keeps all its numeric segments: ~> 1.0.0-alpha
+	// allows the prereleases and the release of 1.0.0 but not 1.0.1
+	if len(numeric) > 1 && !isPrerelease {
+		numeric = numeric[:len(numeric)-1]
+	}
+	if len(numeric) == 0 {
+		return nil
 	}
 
-	return true
+	last := numeric[len(numeric)-1]
+	numeric[len(numeric)-1] = createSegment(strconv.Itoa(last.numValue + 1))
+	return numeric
 }
